@@ -1,5 +1,6 @@
 import KyupyVerif.Proofs.SdfWave1
 import KyupyVerif.Proofs.SdfWave2
+import KyupyVerif.Proofs.SdfWave3
 import KyupyVerif.Proofs.SdfTextRaw
 import KyupyVerif.Proofs.WaveMemCirc
 import KyupyVerif.Gen.Tables
@@ -79,6 +80,23 @@ theorem demoIc_range (c1 : String) (p1 : Option String) (c2 : String) (p2 : Opti
   unfold demoIc at h
   repeat' split at h
   all_goals first | (cases h; omega) | cases h
+
+/-- node names of the real circuit (parallel to `demoNet.nodes`) and `NANGATE.pin_index` on the two cell kinds -/
+def demoNames : Array String := #["u1", "n1", "u2", "z", "a", "a", "b", "b", "z", "a~u1/I", "n1~u2/A1", "b~u2/A2"]
+def demoPinIdx : PinIdx := fun kind pin =>
+  if kind = "INV_X1" ∧ (pin = "I" ∨ pin = "ZN") then some 0
+  else if kind = "NAND2_X1" ∧ (pin = "A1" ∨ pin = "ZN") then some 0
+  else if kind = "NAND2_X1" ∧ pin = "A2" then some 1 else none
+
+/-- the two tables are what `netPinLine` / `netIcLine` read off the netlist for every name the SDF file uses (and `none` for a
+cell or a connection that is not there) -/
+theorem demo_tables_net :
+    ([("u1", "I"), ("u2", "A1"), ("u2", "A2"), ("u3", "A1"), ("n1", "I")].all fun q =>
+      netPinLine demoNet demoNames demoPinIdx q.1 q.2 == demoPins q.1 q.2) = true ∧
+    ([("a", none, "u1", some "I"), ("u1", some "ZN", "u2", some "A1"), ("b", none, "u2", some "A2"),
+      ("u2", some "ZN", "z", none), ("a", none, "u2", some "A1"), ("u1", some "ZN", "z", none)].all fun q =>
+      netIcLine demoNet demoNames demoPinIdx q.1 q.2.1 q.2.2.1 q.2.2.2 == demoIc q.1 q.2.1 q.2.2.1 q.2.2.2) = true := by
+  decide +kernel
 
 /-- the delay table of the run with data set 0 -/
 def demoDelay : Nat → Bool → Bool → Int := sdfDelay demoPins demoIc (parse .merge demoB) 0
